@@ -117,8 +117,21 @@ struct World
     pika::counting_semaphore<> done{0};
 };
 
+// value type whose moved-from state is observable: "values passed unchanged / forwarded" also means "not after having been moved from"
+struct MV
+{
+    int v = 0;
+    MV() = default;
+    MV(int x) : v(x) {}
+    MV(MV const&) = default;
+    MV& operator=(MV const&) = default;
+    MV(MV&& o) noexcept : v(o.v) { o.v = -1; }
+    MV& operator=(MV&& o) noexcept { v = o.v; o.v = -1; return *this; }
+    bool operator!=(int x) const { return v != x; }
+};
+
 template <typename Shape>
-static void body(World& W, Shape i, int a, int b, int nvals)
+static void body(World& W, Shape i, MV const& a, MV const& b, int nvals)
 {
     World::Shard& sh = World::my(W);
     sh.in_flight.fetch_add(1, std::memory_order_relaxed);
@@ -148,8 +161,8 @@ struct Recv
         w->done.release();
     }
     void set_value() && noexcept { fin(0); }
-    void set_value(int a) && noexcept { if (a != 11) w->vals_ok = 0; fin(0); }
-    void set_value(int a, int b) && noexcept { if (a != 11 || b != 22) w->vals_ok = 0; fin(0); }
+    void set_value(MV a) && noexcept { if (a != 11) w->vals_ok = 0; fin(0); }
+    void set_value(MV a, MV b) && noexcept { if (a != 11 || b != 22) w->vals_ok = 0; fin(0); }
     void set_error(std::exception_ptr ep) && noexcept
     {
         try { std::rethrow_exception(ep); }
@@ -169,7 +182,7 @@ static void launch(World& W, Case const& c, Sched sched, Recv r)
         // the operation state is intentionally leaked until the end of the case (heap), freed by the caller via unique_ptr
         if (nv == 0)
         {
-            auto s = ex::bulk(std::forward<decltype(pred_sender)>(pred_sender), n, [&W](Shape i) { body<Shape>(W, i, 11, 22, 0); });
+            auto s = ex::bulk(std::forward<decltype(pred_sender)>(pred_sender), n, [&W](Shape i) { body<Shape>(W, i, MV(11), MV(22), 0); });
             auto* os = new auto(ex::connect(std::move(s), std::move(r)));
             ex::start(*os);
         }
@@ -178,19 +191,19 @@ static void launch(World& W, Case const& c, Sched sched, Recv r)
     auto with_vals = [&](auto make0, auto make1, auto make2) {
         if (nv == 0)
         {
-            auto s = ex::bulk(make0(), n, [&W](Shape i) { body<Shape>(W, i, 11, 22, 0); });
+            auto s = ex::bulk(make0(), n, [&W](Shape i) { body<Shape>(W, i, MV(11), MV(22), 0); });
             auto* os = new auto(ex::connect(std::move(s), std::move(r)));
             ex::start(*os);
         }
         else if (nv == 1)
         {
-            auto s = ex::bulk(make1(), n, [&W](Shape i, int& a) { body<Shape>(W, i, a, 22, 1); });
+            auto s = ex::bulk(make1(), n, [&W](Shape i, MV& a) { body<Shape>(W, i, a, MV(22), 1); });
             auto* os = new auto(ex::connect(std::move(s), std::move(r)));
             ex::start(*os);
         }
         else
         {
-            auto s = ex::bulk(make2(), n, [&W](Shape i, int& a, int& b) { body<Shape>(W, i, a, b, 2); });
+            auto s = ex::bulk(make2(), n, [&W](Shape i, MV& a, MV& b) { body<Shape>(W, i, a, b, 2); });
             auto* os = new auto(ex::connect(std::move(s), std::move(r)));
             ex::start(*os);
         }
@@ -198,19 +211,19 @@ static void launch(World& W, Case const& c, Sched sched, Recv r)
     switch (c.pred)
     {
     case PR_TRANSFER_JUST:
-        with_vals([&] { return ex::transfer_just(sched); }, [&] { return ex::transfer_just(sched, 11); }, [&] { return ex::transfer_just(sched, 11, 22); });
+        with_vals([&] { return ex::transfer_just(sched); }, [&] { return ex::transfer_just(sched, MV(11)); }, [&] { return ex::transfer_just(sched, MV(11), MV(22)); });
         break;
     case PR_SCHEDULE_THEN:
-        with_vals([&] { return ex::schedule(sched); }, [&] { return ex::then(ex::schedule(sched), [] { return 11; }); },
-            [&] { return ex::continues_on(ex::just(11, 22), sched); });
+        with_vals([&] { return ex::schedule(sched); }, [&] { return ex::then(ex::schedule(sched), [] { return MV(11); }); },
+            [&] { return ex::continues_on(ex::just(MV(11), MV(22)), sched); });
         break;
     case PR_ON_OTHER_TASK:
         with_vals([&] { return ex::continues_on(ex::then(ex::schedule(ex::thread_pool_scheduler{}), [] { pika::this_thread::yield(); }), sched); },
-            [&] { return ex::continues_on(ex::then(ex::schedule(ex::thread_pool_scheduler{}), [] { pika::this_thread::yield(); return 11; }), sched); },
-            [&] { return ex::continues_on(ex::just(11, 22), sched); });
+            [&] { return ex::continues_on(ex::then(ex::schedule(ex::thread_pool_scheduler{}), [] { pika::this_thread::yield(); return MV(11); }), sched); },
+            [&] { return ex::continues_on(ex::just(MV(11), MV(22)), sched); });
         break;
     default:
-        with_vals([&] { return ex::just(); }, [&] { return ex::just(11); }, [&] { return ex::just(11, 22); });
+        with_vals([&] { return ex::just(); }, [&] { return ex::just(MV(11)); }, [&] { return ex::just(MV(11), MV(22)); });
         break;
     }
 }
